@@ -22,6 +22,7 @@ class Ctx(object):
         self.obs = None
         self.used = []
         self._rankmap = None
+        self.prime_all = False
         if sym:
             import symx
             self.symx = symx
@@ -134,6 +135,10 @@ class Ctx(object):
     def region(self, rid, cond):
         """a named input region (used by known findings).  Symbolic: excluded regions are assumed away.
         Concrete: records whether the replayed input lies in the region."""
+        if getattr(self, 'exclude_all_regions', False):
+            # catalogue runs (C05 / C15): known-finding regions of the borrowed property are outside this claim
+            self.assume(self.NOT(cond))
+            return
         if self.sym:
             if rid in self.exclude:
                 self.assume(self.NOT(cond))
@@ -250,6 +255,10 @@ class Ctx(object):
         a = self.da.DimArray(vals, axes=axes) if dims else self.da.DimArray(vals)
         if attrs:
             a.attrs.update(attrs)
+        if getattr(self, 'prime_all', False):
+            # the axes have answered is_monotonic() before: their cached state must not change any answer
+            for ax in a.axes:
+                ax.is_monotonic()
         if register:
             self.operands.append({'obj': a, 'dims': tuple(dims), 'labels': [list(l) for l in labels],
                                   'cells': list(cells), 'kind': kind, 'attrs': dict(attrs or {}),
